@@ -97,6 +97,21 @@ def add_extras(files: T.Dict[str, str], setup_args: T.Sequence[str], seed: int,
             env['PKG_CONFIG_PATH'] = ':'.join(_perm(rng, ['/xe/pc', '/xf/pc', '/xg/pc', '/xe/pc']))
         if 'cmake_prefix_path' not in taken and rng.random() < 0.5:
             env['CMAKE_PREFIX_PATH'] = ':'.join(_perm(rng, ['/xh', '/xi', '/xj']))
+    # ---- several environment variables naming the same tool (envconfig: RC/WINDRES, DC_LD/D_LD, ...): which one wins must not
+    #      depend on where they stand in the environment; the winner is written into a configure_file output
+    if feat('env_tool_aliases', 0.5):
+        pairs = [('windres', 'RC', 'WINDRES'), ('d_ld', 'D_LD', 'DC_LD'), ('fortran_ld', 'F_LD', 'FC_LD'),
+                 ('rust_ld', 'RUST_LD', 'RUSTC_LD'), ('objcpp_ld', 'OBJCPP_LD', 'OBJCXX_LD')]
+        exes = ['/bin/true', '/bin/false', '/bin/cat', '/bin/echo', '/bin/ls', '/bin/sleep']
+        chosen = _some(rng, pairs, lo=2)
+        post.append("x_tools = configuration_data()")
+        for tool, v1, v2 in chosen:
+            e1, e2 = rng.sample(exes, 2)
+            env[v1] = e1
+            env[v2] = e2
+            post.append(f"x_tp = find_program({q(tool)}, required: false)")
+            post.append(f"x_tools.set({q(tool.upper())}, x_tp.found() ? x_tp.full_path() : 'none')")
+        post.append("configure_file(output: 'x_env_tools.txt', configuration: x_tools)")
     # ---- cross build with per-machine pkg-config paths (dependency cache keyed per machine) ------------------
     cross_pc = False
     if 'pkg_config_path' not in taken and 'PKG_CONFIG_PATH' not in env and feat('cross_pcdeps', 0.25):
@@ -120,6 +135,7 @@ def add_extras(files: T.Dict[str, str], setup_args: T.Sequence[str], seed: int,
             "option('xo_arr', type: 'array', choices: ['a', 'b', 'c'], value: ['c', 'a'])",
             "option('xo_feat', type: 'feature', value: 'auto', yield: true)",
             "option('xo_arr2', type: 'array', value: [])",
+            "option('xo_hist', type: 'string', value: 'h', description: 'referenced nowhere (srcedit history)')",
             "option('Xo_upper', type: 'string', value: '')",
             "option('a_first', type: 'boolean', value: false)",
         ]
